@@ -58,6 +58,60 @@ class Lock:
         self.f.close()
 
 
+class Hang(BaseException):
+    """an implementation call did not return within the per-case budget (BaseException: not swallowed by `except Exception`)"""
+
+
+_WATCH = {"armed": False, "tick": 0.0, "budget": 0.0, "run": None}
+
+
+def _on_alarm(signum, frame):
+    raise Hang()
+
+
+def watch_arm(run=None):
+    """(re)start the per-case budget; called by Run.case.  A pure-Python loop that never ends is interrupted by SIGALRM (-> Hang);
+    a native call that never returns is ended by the hard watchdog thread at twice the budget."""
+    import signal
+    if run is not None:
+        _WATCH["run"] = run
+    r = _WATCH["run"]
+    if r is None:
+        return
+    _WATCH.update(armed=True, tick=time.time(), budget=r.case_budget)
+    try:
+        signal.signal(signal.SIGALRM, _on_alarm)
+        signal.setitimer(signal.ITIMER_REAL, r.case_budget)
+    except ValueError:   # not in the main thread
+        pass
+
+
+def watch_disarm():
+    import signal
+    _WATCH["armed"] = False
+    try:
+        signal.setitimer(signal.ITIMER_REAL, 0)
+    except ValueError:
+        pass
+
+
+def _hard_watchdog():
+    while True:
+        time.sleep(5)
+        if _WATCH["armed"] and time.time() - _WATCH["tick"] > 2 * _WATCH["budget"] + 30:
+            r = _WATCH["run"]
+            try:
+                os.makedirs(f"{OUT}/replays", exist_ok=True)
+                replay = f"{OUT}/replays/{r.pid}_{r.seed}.json"
+                json.dump({"property": r.pid, "seed": r.seed, "tier": r.tier, "kind": "failing-input",
+                           "failure_classes": {"implementation-hang": 1},
+                           "failures": [{"key": "implementation-hang", "what": f"a native implementation call did not return within {2 * r.case_budget + 30:.0f} s",
+                                         "case": {"last_case": r.last_key}}] + r.failures[:20]}, open(replay, "w"), indent=1, default=str)
+                print(f"VIOLATION property={r.pid} replay={replay}", flush=True)
+            finally:
+                os._exit(1)
+
+
 def write_if_changed(path, text):
     old = None
     if os.path.exists(path):
@@ -115,6 +169,16 @@ def coq_make(targets, timeout=900, jobs=8):
 
 def coq_run(name, vtext, timeout=300):
     """compile a throw-away file coq/Corr/<name>.v and return (rc, stdout)"""
+    was_armed = _WATCH["armed"]
+    watch_disarm()
+    try:
+        return _coq_run(name, vtext, timeout)
+    finally:
+        if was_armed:
+            watch_arm()
+
+
+def _coq_run(name, vtext, timeout):
     d = f"{COQ}/Corr"
     os.makedirs(d, exist_ok=True)
     path = f"{d}/{name}.v"
@@ -185,6 +249,10 @@ class Run:
     def __init__(self, pid, tier, seed, replay=None):
         self.pid, self.tier, self.seed = pid, tier, seed
         self.t0 = time.time()
+        # budget between two ticks (Run.case, end of a Coq build): far above any legitimate gap (whole quick runs take < 90 s)
+        self.case_budget = float(os.environ.get("VERIF_CASE_TIMEOUT", "300" if tier == "quick" else "2400"))
+        self.last_key = None
+        watch_arm(self)
         self.rng = random.Random(seed)
         self.red = []            # reasons the proof side / translator / correspondence no longer checks
         self.failures = []       # oracle failures: dict(key, what, case)
@@ -208,6 +276,13 @@ class Run:
     # ---- proof side ------------------------------------------------------------------------
     def prove(self, props_file, timeout=900):
         """steps 1-3: regenerate, build the cone of Props/<id>.v, scrape Print Assumptions, hygiene"""
+        watch_disarm()
+        try:
+            return self._prove(props_file, timeout)
+        finally:
+            watch_arm(self)
+
+    def _prove(self, props_file, timeout):
         with Lock():
             errs, changed = regen()
             cone0 = cone_of(props_file)
@@ -269,6 +344,13 @@ class Run:
 
     def need(self, targets, timeout=600):
         """make sure model/gen .vo files needed by the correspondence exist even if a proof broke"""
+        watch_disarm()
+        try:
+            return self._need(targets, timeout)
+        finally:
+            watch_arm(self)
+
+    def _need(self, targets, timeout):
         with Lock():
             ok, log = coq_make(targets, timeout=timeout)
         if not ok:
@@ -278,12 +360,19 @@ class Run:
     # ---- bookkeeping -----------------------------------------------------------------------
     def case(self, key, nontrivial=True, regime=None, sample=None):
         self.evals += 1
+        self.last_key = key
+        watch_arm(self)
         if nontrivial:
             self.distinct.add(key if isinstance(key, (str, int, tuple)) else json.dumps(key, sort_keys=True, default=str))
         if regime is not None:
             self.hist[regime] = self.hist.get(regime, 0) + 1
         if sample is not None and len(self.samples) < 8:
             self.samples.append(sample)
+
+    def tick(self, key):
+        """name the implementation call about to be made (the replay of a hang) and restart the per-case budget"""
+        self.last_key = key
+        watch_arm(self)
 
     def fail(self, key, what, case):
         self.failures.append({"key": key, "what": what, "case": case})
@@ -293,6 +382,7 @@ class Run:
 
     # ---- verdict ---------------------------------------------------------------------------
     def finish(self):
+        watch_disarm()
         known = [k for k in load_known() if k.get("property") == self.pid]
         known_keys = {k["key"]: k for k in known}
         unlisted, listed = [], {}
